@@ -7,7 +7,18 @@
      addrs    per address (';'), the derived child public key of every participant 0..n-1 (',')
      inputs   one digit per transaction input: which address it spends
      chains   per chain (';'), ops ('.'): cW create in wallet W | s sign | p send | oW dW rW hand off to W
-   answer:  W:<cid>/<order>;...  A:<redeem>/<hash>/<owners>/<path>,...;...  X:<obs,obs,...>;...  *)
+              (cer2 only) kPR sign with the child key of participant P for address row R only
+   answer:  W:<cid>/<order>;...  A:<redeem>/<hash>/<owners>/<path>,...;...  X:<obs,obs,...>;...
+
+   cer2 K m sort given coin cpath wallets addrs chains spends opts
+     given    "-" | one cosigner_id for all wallets | one entry per wallet (',')
+     wallets  who:form:pubhex; forms M m R r are private keys, A a public ones
+     addrs    per row (';'): change/address_index/childpub,childpub,...
+     spends   per chain (';'): rows/rbf/locktime/fee/value+value/number_of_change_outputs/sel   (sel: e | a<min_confirms>)
+     opts     k=v (';'): afs (one bit per wallet), bc, dust, conf, uv and vstep=R:O (an unspent output of address row r,
+              ordinal o holds uv + R*r + O*o)
+   answer as above, a state observation being <sigs>=<v>~<version>/<locktime>/<prev:seq:value:code|..>/<d0:v+..+cN:total>;
+   the create op yields one too; a signature made over other fields than the present ones is shown as signer x *)
 module BZ = Z
 open C10_model
 module H = Common.Make (struct type byte = C10_model.byte let zb = C10_model.zb let bz = C10_model.bz end)
@@ -76,6 +87,104 @@ let dispatch = function
         let obs = ms_run (nat_of_int (BZ.to_int mz)) (ms_init keyss) mops in
         join "," (List.map obs_s obs) in
     let xpart = join ";" (List.map run_chain (split ';' chains)) in
+    "W:" ^ wpart ^ " A:" ^ apart ^ " X:" ^ (if xpart = "" then "-" else xpart)
+
+  | ["cer2"; k; m; sort; given; coin; cpath; wallets; addrs; chains; spends; opts] ->
+    let k = kind_of k and mz = z_of m and sort = (sort = "1") in
+    let wtxt = split ';' wallets in
+    let nw = List.length wtxt in
+    let givens =
+      if given = "-" then List.init nw (fun _ -> None)
+      else if String.contains given ',' then List.map (fun g -> if g = "-" then None else Some (z_of g)) (split ',' given)
+      else List.init nw (fun _ -> Some (z_of given)) in
+    let parse_wallet2 s =
+      List.map (fun e -> match String.split_on_char ':' e with
+          | [who; form; hex] -> { co_master = bytes_of_hex hex; co_private = String.contains "MmRr" form.[0]; co_who = z_of who }
+          | _ -> failwith "wallet entry") (split ',' s) in
+    let ws = List.map parse_wallet2 wtxt in
+    let rows = List.map (fun a -> match String.split_on_char '/' a with
+        | [c; idx; pubs] -> (z_of c, z_of idx, List.map bytes_of_hex (split ',' pubs))
+        | _ -> failwith "row") (split ';' addrs) in
+    let opt_tbl = List.map (fun e -> match String.index_opt e '=' with
+        | Some i -> (String.sub e 0 i, String.sub e (i + 1) (String.length e - i - 1))
+        | None -> (e, "")) (split ';' opts) in
+    let optv key d = try List.assoc key opt_tbl with Not_found -> d in
+    let afs_s = optv "afs" (String.make nw '1') in
+    let afs_of w = w < String.length afs_s && afs_s.[w] = '1' in
+    let bc = z_of (optv "bc" "1") in
+    let env = { ev_blockcount = bc; ev_dust = z_of (optv "dust" "1000"); ev_confirms = z_of (optv "conf" "10") } in
+    let uv = z_of (optv "uv" "100000000") in
+    let (vr, vo) = match String.split_on_char ':' (optv "vstep" "0:0") with
+      | [a; b] -> (z_of a, z_of b) | _ -> (BZ.zero, BZ.zero) in
+    let with_child w a = List.map (fun c -> (c, List.nth a (BZ.to_int c.co_who))) w in
+    let wpart = join ";" (List.map2 (fun w g ->
+        (match lib_cosigner_id w sort g with Some c -> zi c | None -> "ERR") ^ "/" ^
+        whos (List.map (fun c -> c.co_who) (lib_cosigner_order w sort))) ws givens) in
+    let apart = join ";" (List.map (fun w ->
+        join "," (List.map (fun (c, idx, a) ->
+            let ks = with_child w a in
+            let rs = lib_wallet_redeemscript ks mz sort in
+            let h = match rs with Some r -> lib_script_hash hash160 sha256 k r | None -> None in
+            opt hex_of_bytes rs ^ "/" ^ opt hex_of_bytes h ^ "/" ^ whos (lib_script_owners ks sort) ^ "/" ^
+            path_s (lib_key_path k (z_of coin) BZ.zero (z_of cpath) c idx)) rows)) ws) in
+    let fields_s f =
+      let ins = join "|" (List.map (fun i -> zi i.ti_prev ^ ":" ^ zi i.ti_seq ^ ":" ^ zi i.ti_value ^ ":" ^ zi i.ti_code) f.tf_ins) in
+      let req = List.filter (fun o -> BZ.sign o.to_dest >= 0) f.tf_outs in
+      let cho = List.filter (fun o -> BZ.sign o.to_dest < 0) f.tf_outs in
+      let outs = List.map (fun o -> "d" ^ zi o.to_dest ^ ":" ^ zi o.to_value) req @
+                 (if cho = [] then [] else
+                    ["c" ^ string_of_int (List.length cho) ^ ":" ^
+                     zi (List.fold_left (fun a o -> BZ.add a o.to_value) BZ.zero cho)]) in
+      zi f.tf_version ^ "/" ^ zi f.tf_locktime ^ "/" ^ ins ^ "/" ^ join "+" outs in
+    let rec int_of_nat = function O -> 0 | S n -> 1 + int_of_nat n in
+    let sig2_s e s =
+      let q = BZ.to_int (BZ.fdiv s.sg_by (BZ.of_int 16)) and r = BZ.erem s.sg_by (BZ.of_int 16) in
+      (if q = e then zi r else "x") ^ ":" ^ (match s.sg_tag with Some t -> zi t | None -> "-") in
+    let sigs2_s e l = if l = [] then "_" else join "+" (List.map (sig2_s e) l) in
+    let sptxt = split ';' spends in
+    let run_chain ci c =
+      let ops = split '.' c in
+      match ops, String.split_on_char '/' (List.nth sptxt ci) with
+      | first :: rest, [srows; rbf; lock; fee; vals; nch; sel] ->
+        let w0 = int_of_string (String.sub first 1 (String.length first - 1)) in
+        let w = List.nth ws w0 in
+        let rowl = List.init (String.length srows) (fun i -> Char.code srows.[i] - 48) in
+        let used = Hashtbl.create 4 in
+        let ins = List.map (fun r ->
+            let n = try Hashtbl.find used r with Not_found -> 0 in
+            Hashtbl.replace used r (n + 1);
+            ((BZ.of_int (2 * r + n), BZ.add uv (BZ.add (BZ.mul vr (BZ.of_int r)) (BZ.mul vo (BZ.of_int n)))), BZ.of_int r)) rowl in
+        let sp = { sp_rbf = (rbf = "1"); sp_locktime = z_of lock; sp_fee = z_of fee;
+                   sp_outs = List.map z_of (split '+' vals); sp_nchange = nat_of_int (int_of_string nch);
+                   sp_ins = ins;
+                   sp_minconf = (if sel = "e" then None else Some (z_of (String.sub sel 1 (String.length sel - 1)))) } in
+        (match lib_create_fields env (afs_of w0) sp with
+         | None -> "EXC"
+         | Some f ->
+           let keyss = List.map (fun r -> let (_, _, a) = List.nth rows r in lib_script_owners (with_child w a) sort) rowl in
+           let cur = ref w0 in
+           let cops = List.map (fun o ->
+               match o.[0] with
+               | 's' -> CSign (let wl = List.nth ws !cur in
+                               match List.filter (fun c -> c.co_private) wl with
+                               | [c] -> Some c.co_who | _ -> None)
+               | 'p' -> CSend
+               | 'k' ->       (* k<participant><row>: sign(keys=[that child key]); it is a key of the inputs of that row *)
+                 let r = Char.code o.[2] - 48 in
+                 CSignKey (BZ.of_int (Char.code o.[1] - 48), List.map (fun x -> x = r) rowl)
+               | 'o' | 'd' | 'r' ->
+                 cur := int_of_string (String.sub o 1 (String.length o - 1));
+                 CHand ((match o.[0] with 'o' -> HObject | 'd' -> HDict | _ -> HRaw), afs_of !cur)
+               | _ -> failwith "op") rest in
+           let obs = cs_run (nat_of_int (BZ.to_int mz)) bc (cs_init f keyss) cops in
+           let first_ob = join "|" (List.map (fun _ -> "_") keyss) ^ "=0~" ^ fields_s f in
+           join "," (first_ob :: List.map (fun ((ob, fl), e) ->
+               match ob with
+               | ObState (v, insg) -> join "|" (List.map (sigs2_s (int_of_nat e)) insg) ^ "=" ^ bool_s v ^ "~" ^ fields_s fl
+               | ObPushed b -> "P" ^ bool_s b
+               | ObRaise -> "EXC") obs))
+      | _ -> "-" in
+    let xpart = join ";" (List.mapi run_chain (split ';' chains)) in
     "W:" ^ wpart ^ " A:" ^ apart ^ " X:" ^ (if xpart = "" then "-" else xpart)
   | ["redeem"; m; sort; keys] ->
     opt hex_of_bytes (lib_redeemscript (List.map bytes_of_hex (split ',' keys)) (z_of m) (sort = "1"))
